@@ -5,6 +5,11 @@ Uses the end-to-end harness of contracts/C12.py: the real /init shell of method 
 then the real /exchange shell of method m2 (_run_stream_exchange_sync, _unpack_and_recover_state,
 _resolve_call_from_token) receives them.  The AEAD is the idealised contract of C12: a token opens iff it
 is presented under the key and the AAD it was sealed with.
+
+The binding argument (the property does not say *how* tokens are bound): the cursor token authenticates its
+call id; whatever then stands for that call - a cache entry filed under the call id, or the call token whose
+own call id must equal it - is tied to the minting method: entries record the method and are served only to
+it, call tokens are sealed under an AAD that is injective in the method.
 """
 
 from __future__ import annotations
@@ -40,9 +45,9 @@ def _load_c12():
 K = _load_c12()
 
 MANIFEST = {
-    "level_text": "Deductive proof over the real /init and /exchange shells for every pair of stream-method names, every identity pair, key, producer/exchange shape, cancel flag and cache state: a cursor token sealed by the init of method m1 reaches process / on_cancel / the producer turn at the exchange endpoint of m2 only if m1 = m2 (the AADs computed by the real code on both sides are compared under the idealised AEAD contract), and every site that mints a cursor or call token passes its own dispatch's method_name. Tests only replay tokens against the method that minted them; the proof quantifies over all method pairs.",
-    "level_note": "Modulo the idealised AEAD contract of C12 (opens iff same key and same AAD). The re-mint sites inside _run_http_exchange_turn and _run_http_producer_turn are covered by a syntactic dependency obligation (the call passes the enclosing function's never-reassigned method_name parameter) plus the proof that the mint functions fold that argument into the AAD; they are not executed symbolically. Method names are Python identifiers (NUL-free). User hooks and pyarrow calls are abstract.",
-    "technique": "contract-based deductive verification: ghost seal/open events over the real init and exchange shells, string lemma on the real AAD functions (cvc5 --strings-exp), AST dependency obligations for the remaining mint sites",
+    "level_text": "Deductive proof over the real /init and /exchange shells for every pair of stream-method names, every identity pair, key, request shape (exchange turn, producer continuation, cancel; own, missing or foreign call token) and cache state: tokens sealed by the init of method m1 reach process / on_cancel / the producer turn at the exchange endpoint of m2 only if m1 = m2. The cursor token authenticates its call id; a cache entry filed under that call id records the method whose init minted it (warm-up entry and miss-path entry both proved to carry the dispatch's method, the latter only after the call token of that call id opened under the method-bound AAD) and is served only to that method; a call token is sealed by its mint site under its own dispatch's method, and the call AAD is injective in the method name, so it opens only there. Tests only replay tokens against the method that minted them; the proof quantifies over all method pairs.",
+    "level_note": "Modulo the idealised AEAD contract of C12 (opens iff same key and same AAD) and freshness of call ids (os.urandom(16): distinct streams have distinct call ids, so a call id determines the /init - and the method - that minted it). The cache invariant is inductive over puts: both put sites are proved on the harness, the cache itself is C14's. Tokens re-minted by later turns carry the call id of the opened cursor token (C12.O6/O6b: keyed by the authenticated call id); the turn shells are not executed symbolically. Method names: only non-empty and NUL-free is used.",
+    "technique": "contract-based deductive verification: ghost seal/open events over the real init and exchange shells, cache-entry invariant over both put sites, string lemma on the real call-AAD function (z3 seq / cvc5 --strings-exp), AST dependency obligation for the call-token mint site",
     "design_ref": "DESIGN.md §5 C13",
 }
 EXPLANATION = MANIFEST["level_text"]
@@ -50,9 +55,10 @@ TRUSTED = ["pyvc VC generator; z3 5.1.0 / cvc5 1.0.3", "idealised AEAD (see C12)
 ASSUMPTIONS = [
     "stream method names are Python identifiers; the proof only uses: non-empty and NUL-free",
     "domains are NUL-free (as in C12)",
+    "call ids are fresh per /init (os.urandom(16)): two streams never share a call id, so the call id inside an authenticated cursor token determines the /init that minted it",
+    "cache invariant I (entries filed under a call id record the method that minted it) is established at the two put sites on this harness (O3) and used for the entries the receiving worker may hold; eviction/expiry of entries is C14's",
     "the end-to-end harness runs with token_ttl > 0 (expiry configured); ttl = 0 only skips created_at bookkeeping",
-    "only the cursor token needs the binding for the property: a call token is used only when its call id equals the one inside the already-accepted cursor token (C12.O6)",
-    "tokens re-minted by later turns: proved for the mint functions and, syntactically, for their call sites (O2); the turn shells themselves are not executed symbolically",
+    "tokens re-minted by later turns are not followed symbolically: they carry the call id of the cursor token that was opened (C12.O6/O6b)",
 ]
 
 
@@ -67,15 +73,20 @@ def classify(inputs, ob):
     return "cross_method" if inputs.get("minting_method") != inputs.get("exchange_method") else ""
 
 
+def field(obj, name):
+    return obj.fields.get(name) if isinstance(obj, SObj) else None
+
+
 @unit(
-    "C13.O1 tokens minted by /m1/init reach user code at /m2/exchange only if m1 = m2",
+    "C13.O1 tokens minted by /m1/init reach user code at /m2/exchange only if m1 = m2 (+O3 both cache put sites record the dispatch's method)",
     targets=[
         "vgi_rpc/http/server/_app_stream.py::_run_stream_init_sync",
         "vgi_rpc/http/server/_app_stream.py::_run_http_exchange_init",
         "vgi_rpc/http/server/_app_stream.py::_run_stream_exchange_sync",
         "vgi_rpc/http/server/_app_stream.py::_unpack_and_recover_state",
-        "vgi_rpc/http/server/_state_token.py::_mint_cursor_token",
+        "vgi_rpc/http/server/_app_stream.py::_resolve_call_from_token",
         "vgi_rpc/http/server/_state_token.py::_mint_call_token",
+        "vgi_rpc/http/server/_state_token.py::_compute_call_aad",
     ],
     replay=replay_cross_method,
     classify=classify,
@@ -83,92 +94,169 @@ def classify(inputs, ob):
     max_paths=4000,
 )
 def cross_method(S):
-    def accepted(S, R):
-        S.lemma("O1.a_cursor_token_opens_only_at_the_method_that_minted_it", eq(R["m1"], R["m2"]))
+    def call_token_accepted(S, R):
+        S.lemma("O1.a_call_token_opens_only_at_the_method_that_minted_it", eq(R["m1"], R["m2"]))
 
-    R = K.mint_then_exchange(S, shapes=("none", "dp"), vary=True, same_shape=True, on_accept=accepted)  # cross-identity: C12.L8
+    R = K.mint_then_exchange(S, shapes=("none", "dp"), vary=True, same_shape=True, on_call_accept=call_token_accepted)  # cross-identity: C12.L8
     S.oblige("O1.init_mints_one_cursor_and_one_call_token", R["minted"].returned and len(R["cur"]) == 1 and len(R["call"]) == 1, kind="trace")
     if "out" not in R:
         return
+    m1, m2, call = R["m1"], R["m2"], R["call"][0]
+    # invariant I, base: the warm-up entry of /init is filed under the minted call id and records the dispatch's method
+    warm = R["puts_a"]
+    S.oblige("O3.init_warms_the_cache_under_the_minted_call_id", len(warm) == 1 and warm[0][1] is call[3], kind="trace")
+    for e in warm:
+        S.oblige("O3.warm_up_entry_carries_the_dispatch_method", field(e[3], "method_name") is m1, kind="trace", witness="warm_up_entry")
+    # invariant I, step: a miss-path entry is filed only after the call token opened under the dispatch's method-bound AAD,
+    # records the dispatch's method, and that method is the one that minted the call id (lemma above)
+    want_call_aad = K.aad_for(S, K.st._compute_call_aad, R["a2"], {"method_name": m2})
+    for e in R["trace_b"]:
+        if e[0] == "open_call":
+            S.oblige("O3.call_token_opened_under_the_dispatch_methods_aad", want_call_aad.returned and eq(e[3], want_call_aad.value), kind="trace", witness="miss_path_open")
+    for e in R["puts_b"]:
+        S.oblige("O3.miss_path_entry_carries_the_dispatch_method", field(e[3], "method_name") is m2, kind="trace", witness="miss_path_entry")
+        S.oblige("O3.miss_path_entry_is_filed_under_the_cursor_call_id_for_its_minting_method", And(e[1] is R["cur"][0][3], eq(m2, m1)), witness="miss_path_entry")
+    # the property
     for e in R["ran"]:
-        S.oblige("O1.user_code_runs_only_on_tokens_minted_by_this_method", eq(R["m1"], R["m2"]), witness=e[0])
+        S.oblige("O1.user_code_runs_only_on_tokens_minted_by_this_method", eq(m1, m2), witness=e[0])
         S.oblige("O1.user_code_gets_the_state_rebuilt_from_the_presented_token", e[1] is R["W"]["state"], kind="trace")
     if R["ran"]:
-        S.oblige("O1.the_shell_dispatches_under_its_own_method_name", all(e[0] == "on_cancel" or e[2] is R["m2"] for e in R["ran"]), kind="trace")
+        S.oblige("O1.the_shell_dispatches_under_its_own_method_name", all(e[0] == "on_cancel" or e[2] is m2 for e in R["ran"]), kind="trace")
     S.canary("O1.canary.minted_tokens_never_reach_user_code", SBool(z3.BoolVal(not R["ran"])))
+    S.canary("O1.canary.the_cache_never_serves_an_entry", SBool(z3.BoolVal(not ("hit" in R["W"] and R["ran"] and not R["puts_b"]))))
 
 
 # ------------------------------------------------------------------------------------------
-# O2 every mint site passes the method_name of its own dispatch (dependency obligation, as lock coverage in C42)
+# O3 a cache entry recorded for another method is not served (generic entry, directly on _unpack_and_recover_state)
 # ------------------------------------------------------------------------------------------
 
-MINTERS = ("_mint_cursor_token", "_mint_call_token")
+
+@unit(
+    "C13.O3 a cache hit on an entry recorded for another stream method is not served: the request falls back to its call token under the method-bound AAD",
+    targets=["vgi_rpc/http/server/_app_stream.py::_unpack_and_recover_state", "vgi_rpc/http/server/_app_stream.py::_resolve_call_from_token"],
+    replay=replay_cross_method,
+    min_obligations=20,
+)
+def foreign_entry(S):
+    S.prune_lia = True
+    K.install_clock(S)
+    K.quiet_hooks(S)
+    K.install_token_openers(S, cursor_outcomes=("accept",), call_outcomes=("accept", "reject"))
+    method = S.str("method_name")
+    S.assume(K.is_method_name(method))
+    W = K.install_recovery_world(S, cache_outcomes=("foreign",), request_method=method)
+    app, key, ttl, impl = K.mk_app(S)
+    auth, ident = K.mk_auth(S, "1", ["none", "dp"][S.choose(2)])
+    token = S.bytes("token")
+    call_token = S.bytes("call_token") if S.choose(2) == 0 else None
+    params = inspect.signature(aps._unpack_and_recover_state).parameters
+    S.oblige("O3.recovery_takes_the_method_of_the_receiving_endpoint", "method_name" in params, kind="trace", witness="recovery:signature")
+    if "method_name" not in params:
+        return
+    out = S.outcome(aps._unpack_and_recover_state, app, token, call_token, SObj(None, kind="StateInfo"), auth, method_name=method)
+    names = [e[0] for e in S.trace]
+    S.oblige("O3.the_cache_was_consulted_and_held_another_methods_entry", "foreign" in W, kind="trace")
+    if out.returned:
+        state_obj, resolved, call_id, state_bytes = out.value
+        S.oblige("O3.another_methods_entry_is_not_served", resolved is not W.get("foreign"), kind="trace", witness="foreign_entry")
+        opened = [e for e in S.trace if e[0] == "open_call_ok"]
+        S.oblige("O3.served_only_after_the_call_token_opened", len(opened) == 1 and names.index("open_call_ok") < names.index("deserialize_state"), kind="trace", witness="foreign_entry")
+        want = K.aad_for(S, K.st._compute_call_aad, auth, {"method_name": method})
+        for e in opened:
+            S.oblige("O3.call_token_opened_under_the_dispatch_methods_aad", eq(e[3], want.value), kind="trace", witness="miss_path_open")
+        puts = [e for e in S.trace if e[0] == "cache.put"]
+        S.oblige("O3.miss_path_entry_carries_the_dispatch_method", len(puts) == 1 and field(puts[0][3], "method_name") is method, kind="trace", witness="miss_path_entry")
+    else:
+        S.oblige("O3.rejected_with_http_400", K.is_400(out.exc), kind="raises")
+        S.oblige("O3.nothing_is_deserialised_when_rejected", not any(n in ("deserialize_state", "bind_call_state", "rehydrate") for n in names), kind="trace")
+    S.canary("O3.canary.always_rejected", SBool(z3.BoolVal(out.raised)))
 
 
-def mint_sites():
-    src = inspect.getsource(aps)
-    tree = ast.parse(src)
+# ------------------------------------------------------------------------------------------
+# O2 the call-token mint site passes the method_name of its own dispatch; _mint_call_token folds it into the AAD;
+#    the call AAD is injective in the method name
+# ------------------------------------------------------------------------------------------
+
+
+def mint_sites(minter="_mint_call_token"):
+    tree = ast.parse(inspect.getsource(aps))
     out = []
     for fn in ast.walk(tree):
         if not isinstance(fn, (ast.FunctionDef, ast.AsyncFunctionDef)):
             continue
         params = {a.arg for a in fn.args.args + fn.args.kwonlyargs + fn.args.posonlyargs}
-        reassigned = any(isinstance(n, (ast.Assign, ast.AugAssign, ast.AnnAssign, ast.NamedExpr)) and any(isinstance(t, ast.Name) and t.id == "method_name" for t in ast.walk(n) if isinstance(t, ast.Name) and isinstance(t.ctx, ast.Store)) for n in ast.walk(fn))
+        reassigned = any(isinstance(t, ast.Name) and t.id == "method_name" and isinstance(t.ctx, ast.Store) for t in ast.walk(fn))
         for call in ast.walk(fn):
-            if isinstance(call, ast.Call) and isinstance(call.func, ast.Name) and call.func.id in MINTERS:
-                # innermost enclosing function only
+            if isinstance(call, ast.Call) and isinstance(call.func, ast.Name) and call.func.id == minter:
                 inner = [f for f in ast.walk(fn) if isinstance(f, (ast.FunctionDef, ast.AsyncFunctionDef)) and f is not fn and any(c is call for c in ast.walk(f))]
                 if inner:
-                    continue
+                    continue  # reported for the innermost enclosing function only
                 passes = any(isinstance(a, ast.Name) and a.id == "method_name" for a in list(call.args) + [k.value for k in call.keywords])
-                out.append(dict(function=fn.name, line=call.lineno, minter=call.func.id, has_param="method_name" in params, reassigned=reassigned, passes=passes, text=" ".join(ast.unparse(call).split())[:160]))
+                out.append(dict(function=fn.name, line=call.lineno, has_param="method_name" in params, reassigned=reassigned, passes=passes, text=" ".join(ast.unparse(call).split())[:160]))
     return out
 
 
 @unit(
-    "C13.O2 every site that mints a token passes the method_name of its own dispatch; the mint functions fold it into the AAD",
-    targets=["vgi_rpc/http/server/_app_stream.py (all _mint_cursor_token / _mint_call_token call sites)", "vgi_rpc/http/server/_state_token.py::_mint_cursor_token", "vgi_rpc/http/server/_state_token.py::_mint_call_token"],
+    "C13.O2 the call-token mint site passes its own dispatch's method_name, _mint_call_token folds it into the AAD, and the call AAD is injective in the method",
+    targets=["vgi_rpc/http/server/_app_stream.py (all _mint_call_token call sites)", "vgi_rpc/http/server/_state_token.py::_mint_call_token", "vgi_rpc/http/server/_state_token.py::_compute_call_aad"],
     replay=replay_cross_method,
     min_obligations=6,
 )
-def mint_site_dependencies(S):
-    mode = S.choose(2)
+def call_token_binding(S):
+    mode = S.choose(3)
+    st = K.st
     if mode == 0:
         sites = mint_sites()
-        S.oblige("O2.mint_sites_found", len([s for s in sites if s["minter"] == "_mint_cursor_token"]) >= 3 and len([s for s in sites if s["minter"] == "_mint_call_token"]) >= 1, kind="trace")
+        S.oblige("O2.call_token_mint_site_found", len(sites) >= 1, kind="trace")
         for s in sites:
             S.cur_site = f"{s['function']}:{s['line']}: {s['text']}"
-            S.oblige(f"O2.{s['function']}.{s['minter']}.passes_its_own_method_name", s["has_param"] and not s["reassigned"] and s["passes"], kind="trace", witness=f"{s['function']}:{s['minter']}")
+            S.oblige(f"O2.{s['function']}._mint_call_token.passes_its_own_method_name", s["has_param"] and not s["reassigned"] and s["passes"], kind="trace", witness=f"{s['function']}:_mint_call_token")
         S.canary("O2.canary.no_mint_site_exists", SBool(z3.BoolVal(not sites)))
         return
-    # the mint functions: two methods, same identity, same everything else => different AADs
-    K.install_clock(S)
-    K.install_seal_contracts(S)
     S.prune_lia = True
+    m1, m2 = S.str("method1"), S.str("method2")
+    S.assume(And(K.is_method_name(m1), K.is_method_name(m2)))
+    if mode == 1:
+        # _compute_call_aad: injective in the method name (and still in the identity) when a method is given
+        takes = "method_name" in inspect.signature(st._compute_call_aad).parameters
+        S.oblige("O2.call_aad_takes_the_method_name", takes, kind="trace", witness="call_aad:signature")
+        if not takes:
+            return
+        a1, i1 = K.mk_auth(S, "1", ["none", "dp"][S.choose(2)])
+        a2, i2 = K.mk_auth(S, "2", ["none", "dp"][S.choose(2)])
+        S.assume(And(K.nul_free(i1[1]), K.nul_free(i2[1])))
+        x1, x2 = S.outcome(st._compute_call_aad, a1, m1), S.outcome(st._compute_call_aad, a2, m2)
+        S.oblige("O2.call_aad_is_total", x1.returned and x2.returned, kind="raises")
+        if x1.returned and x2.returned:
+            S.oblige("O2.call_aad_injective_in_the_method", Implies(eq(x1.value, x2.value), eq(m1, m2)), kind="lemma")
+            same = S.outcome(st._compute_call_aad, a2, m1)  # identity binding at one and the same method
+            S.oblige("O2.method_bound_call_aad_still_injective_in_the_identity", Implies(eq(x1.value, same.value), K.same_identity(i1, i2)), kind="lemma")
+            plain = S.outcome(st._compute_call_aad, a2)
+            cursor = K.invoke(S, st._compute_aad, a2)
+            S.oblige("O2.method_bound_call_aad_differs_from_the_unbound_and_the_cursor_aad", And(Not(eq(x1.value, plain.value)), Not(eq(x1.value, cursor.value))), kind="lemma")
+            S.canary("O2.canary.two_call_aads_never_coincide", Not(eq(x1.value, x2.value)))
+        return
+    # _mint_call_token: two methods, same identity, same everything else => different AADs
     import os as _os
 
-    st = K.st
-    S.handlers["_serialize_state_bytes"] = lambda S, state, info: S.bytes("state_bytes")
+    K.install_clock(S)
+    K.install_seal_contracts(S)
     S.handlers[_os.urandom] = lambda S, k: K._fresh_bytes(S, "random", k)
     S.handlers["Schema.serialize"] = lambda S, o: SObj(None, kind="Buf")
     S.handlers["Buf.to_pybytes"] = lambda S, o: S.bytes("schema_bytes")
     auth, ident = K.mk_auth(S, "1", ["none", "dp"][S.choose(2)])
     S.assume(K.nul_free(ident[1]))
     key = S.bytes("key")
-    m1, m2 = S.str("method1"), S.str("method2")
-    S.assume(And(K.is_method_name(m1), K.is_method_name(m2)))
-    for which, fn, args in (
-        ("cursor", st._mint_cursor_token, lambda: (SObj(None, kind="State"), SObj(None, kind="Info"), S.bytes("call_id"), key, auth)),
-        ("call", st._mint_call_token, lambda: (None, SObj(None, kind="Schema"), SObj(None, kind="Schema"), key, auth, S.str("stream_id"))),
-    ):
-        accepts = "method_name" in inspect.signature(fn).parameters
-        S.oblige(f"O2.{which}.mint_function_takes_the_method_name", accepts, kind="trace", witness=f"{which}:signature")
-        if not accepts:
-            continue
-        n0 = len(S.trace)
-        o1 = S.outcome(fn, *args(), method_name=m1)
-        o2 = S.outcome(fn, *args(), method_name=m2)
-        evs = [e for e in S.trace[n0:] if e[0] in ("seal_cursor", "seal_call")]
-        S.oblige(f"O2.{which}.mint_seals_once_per_call", o1.returned and o2.returned and len(evs) == 2, kind="trace")
-        if len(evs) == 2:
-            S.oblige(f"O2.{which}.different_methods_seal_under_different_aads", Implies(eq(evs[0][5], evs[1][5]), eq(m1, m2)))
+    accepts = "method_name" in inspect.signature(st._mint_call_token).parameters
+    S.oblige("O2.call.mint_function_takes_the_method_name", accepts, kind="trace", witness="call:signature")
+    if not accepts:
+        return
+    args = lambda: (None, SObj(None, kind="Schema"), SObj(None, kind="Schema"), key, auth, S.str("stream_id"))  # noqa: E731
+    o1 = S.outcome(st._mint_call_token, *args(), method_name=m1)
+    o2 = S.outcome(st._mint_call_token, *args(), method_name=m2)
+    evs = S.events("seal_call")
+    S.oblige("O2.call.mint_seals_once_per_call", o1.returned and o2.returned and len(evs) == 2, kind="trace")
+    if len(evs) == 2:
+        want = S.outcome(st._compute_call_aad, auth, m1)
+        S.oblige("O2.call.mint_seals_under_the_call_aad_of_its_method", want.returned and eq(evs[0][5], want.value))
+        S.oblige("O2.call.different_methods_seal_under_different_aads", Implies(eq(evs[0][5], evs[1][5]), eq(m1, m2)))
